@@ -139,12 +139,19 @@ type ReceiverOpts struct {
 // receiveData from wire, verify, rename, setPerms) and reports its error and
 // how much of wire was consumed.
 func ReceiverRecvFile(seed int32, dir, name string, mode int32, mtime int64, wire []byte, o ReceiverOpts) (consumed int, err error) {
+	rd := bytes.NewReader(wire)
+	err = ReceiverRecvStream(seed, dir, name, mode, mtime, rd, o)
+	return len(wire) - rd.Len(), err
+}
+
+// ReceiverRecvStream is ReceiverRecvFile reading the sender's bytes from rd
+// (which may block, fail, or observe the destination between reads).
+func ReceiverRecvStream(seed int32, dir, name string, mode int32, mtime int64, rd io.Reader, o ReceiverOpts) (err error) {
 	root, err := os.OpenRoot(dir)
 	if err != nil {
-		return 0, err
+		return err
 	}
 	defer root.Close()
-	rd := bytes.NewReader(wire)
 	osenv := &rsyncos.Env{Stdout: io.Discard, Stderr: io.Discard}
 	no := func(rsyncopts.InfoLevel, uint16) bool { return false }
 	nod := func(rsyncopts.DebugLevel, uint16) bool { return false }
@@ -162,8 +169,7 @@ func ReceiverRecvFile(seed int32, dir, name string, mode int32, mtime int64, wir
 		Seed:     seed,
 	}
 	f := &receiver.File{Name: name, Length: 0, ModTime: time.Unix(mtime, 0), Mode: mode}
-	err = rt.VerifRecvFile1(f)
-	return len(wire) - rd.Len(), err
+	return rt.VerifRecvFile1(f)
 }
 
 // MuxReader wraps r in the client's demultiplexer (rsyncwire.MultiplexReader).
